@@ -127,8 +127,15 @@ def generate(rng, tier, index):
             if 'data' in op:
                 op['data'] = ctx.rbytes(r.choice([16, 32, 48]))
             steps.append({'actor': a, 'ver': list(ver), 'items': [op]})
-        elif x < 0.56:
+        elif x < 0.53:
             steps.append(gen.gen_request(ctx, actor=a))
+        elif x < 0.56:
+            # a derivation the cryptographic back end refuses with the base
+            # key in hand (iteration count 0 / negative, missing salt, hash
+            # it does not know, output too long, ...)
+            ver = r.choice([(1, 2), (1, 4), (2, 0)])
+            op = gen.gen_derive(ctx, ver, a, refuse=0.85)
+            steps.append({'actor': a, 'ver': list(ver), 'items': [op]})
         elif x < 0.6:
             # operations that fail after some processing (invalid field,
             # wrong state, duplicate name, inapplicable attribute, ...)
